@@ -167,3 +167,42 @@ def check_arguments_influence(ctx, rule: str, label: str, p, schema, where: str,
         ctx.check(occurs, rule, f"{label}|{a.path}",
                   f"{label}: the result `{text[:120]}` does not depend on {a.path} (which can be {', '.join(dependent[:4])}...) under "
                   f"{p.cond_str()[:120]}: whatever that operand evaluates to - NULL included - the answer is the same", where, witness)
+
+
+def check_node_construction(ctx, env, rule: str, consequence: str):
+    """`ast.X(<values>)` must be a new X holding those values. The dataclass decorator generates __init__; what is left to check
+    is that no node class resolves a hand-written __new__ that can hand back anything but a fresh instance of the class asked
+    for (evaluated: every returning path must end in `super().__new__(cls)` / `object.__new__(cls)`)."""
+    schema, repo = env.schema, env.repo
+    n = 0
+    for name, nc in schema.classes.items():
+        n += 1
+        r = repo.lookup_method(nc.qual, "__new__")
+        if r is None:
+            ctx.ok(rule, name, "no hand-written __new__", nontrivial=False)
+            continue
+        ci, fn = r
+        params = [a.arg for a in fn.args.args[1:]]
+        interp = env.interp()
+
+        def setup(it, ci=ci, fn=fn, params=params, q=nc.qual):
+            args = [RefV(q)] + [Sym("param", p) for p in params]
+            return ci.module, fn, args, {}, ci.qual
+
+        paths = interp.explore(setup)
+        bad = None
+        for p in paths:
+            if p.outcome != "return":
+                continue
+            v = p.value
+            fresh = isinstance(v, Sym) and v.op == "call" and isinstance(v.args[0], Sym) and v.args[0].op == "attr" and v.args[0].args[1] == "__new__" \
+                and ((isinstance(v.args[0].args[0], Sym) and v.args[0].args[0].op == "super") or repr(v.args[0].args[0]) == "<builtins.object>") \
+                and len(v.args[1]) >= 1 and repr(v.args[1][0]) == repr(RefV(nc.qual))
+            if not fresh:
+                bad = (p, v)
+                break
+        ctx.check(bad is None, rule, name,
+                  (f"{ci.qual}.__new__ returns `{bad[1]!r:.120}` under {bad[0].cond_str()[:160]}: ast.{name}(...) is not always a new {name} "
+                   f"holding the values given; {consequence}") if bad else "every path of __new__ creates a fresh instance of the class",
+                  ci.module.loc(fn))
+    ctx.analysed["node classes whose construction was checked"] = n
